@@ -208,3 +208,88 @@ func (e *Env) expandHelperCalls(lits []ir.NLit, depth int) [][]ir.NLit {
 
 var _ = token.ADD
 var _ = strings.TrimSpace
+
+// NodeRoles names the Node's life-cycle functions by what they do:
+//
+//	Setup     opens the step's files: its static closure (inside the package) installs
+//	          bufio writers into Node fields, and somebody outside the Node's methods calls it
+//	Teardown  flushes them: its closure calls (*bufio.Writer).Flush, installs nothing, and
+//	          somebody outside the Node's methods calls it
+//	Wire      the function that hands the writers to the executor (invokes SetStdout)
+type NodeRoles struct {
+	Setup, Teardown, Wire *ssa.Function
+}
+
+func (e *Env) nodeRoles() *NodeRoles {
+	if e.nroles != nil {
+		return e.nroles
+	}
+	nr := &NodeRoles{}
+	e.nroles = nr
+	sp := e.P.Pkg(schedRel)
+	if sp == nil {
+		return nr
+	}
+	isNodeMethod := func(f *ssa.Function) bool {
+		g := rootFn(f)
+		return g.Signature.Recv() != nil && strings.HasSuffix(ir.NamedType(g.Signature.Recv().Type()), schedRel+".Node")
+	}
+	inPkgClosure := func(f *ssa.Function) []*ssa.Function {
+		var out []*ssa.Function
+		for _, g := range e.staticClosure(f) {
+			if rootFn(g).Package() == sp {
+				out = append(out, g)
+			}
+		}
+		return out
+	}
+	has := func(fs []*ssa.Function, names ...string) bool {
+		for _, g := range fs {
+			if len(ir.CallsIn(g, func(c *ssa.CallCommon) bool { return ir.IsCallTo(c, names...) })) > 0 {
+				return true
+			}
+		}
+		return false
+	}
+	calledFromOutside := func(f *ssa.Function) bool {
+		for _, ci := range e.StaticCallSites(f) {
+			if ci.Parent().Synthetic != "" {
+				continue // bound-method wrapper: a method value, not a caller
+			}
+			if !isNodeMethod(ci.Parent()) {
+				return true
+			}
+		}
+		return false
+	}
+	for _, f := range e.RepoFuncsSorted() {
+		if f.Parent() != nil || f.Package() != sp || !isNodeMethod(f) {
+			continue
+		}
+		if len(ir.CallsIn(f, func(c *ssa.CallCommon) bool { return c.IsInvoke() && c.Method.Name() == "SetStdout" })) > 0 {
+			nr.Wire = f
+		}
+		if !calledFromOutside(f) {
+			continue
+		}
+		cl := inPkgClosure(f)
+		installs := has(cl, "bufio.NewWriter", "bufio.NewWriterSize")
+		flushes := has(cl, "(*bufio.Writer).Flush")
+		switch {
+		case installs && !flushes:
+			nr.Setup = f
+		case flushes && !installs:
+			nr.Teardown = f
+		}
+	}
+	if nr.Setup == nil {
+		nr.Setup = e.FnQuiet(schedRel, "(*Node).setup")
+	}
+	if nr.Teardown == nil {
+		nr.Teardown = e.FnQuiet(schedRel, "(*Node).teardown")
+	}
+	if nr.Wire == nil {
+		nr.Wire = e.FnQuiet(schedRel, "(*Node).setupExec")
+	}
+	return nr
+}
